@@ -74,6 +74,9 @@ THEOREMS = [
     "AiuVerif.C11.category_opcat",
     "AiuVerif.C11.dataRow_written",
     "AiuVerif.C11.rowOf_written",
+    "AiuVerif.C11.rowOf_written_plain",
+    "AiuVerif.C11.catSplit_na",
+    "AiuVerif.C11.rowOf_written_na",
     "AiuVerif.C11.pt_active_formula",
     "AiuVerif.C11.table_lookup_spec",
     "AiuVerif.C11.masked_name_lookup",
@@ -133,7 +136,8 @@ NOT_YET_PROVED = [
     "parsed_tables_wellformed, first_row_wins, stops_at_autopilot, outside_table_ignored; C11Link.single_table_parse + "
     "rows_from_empty: a log with one table section yields exactly buildTable / buildCatMap of the rows of its body lines; "
     "dataRow_written + catSplit_opcat + rowOf_written: a `kernel-opCat<category>` row written with any blanks is read back as "
-    "that key, cycle count and category); rows of the other two shapes (`-NA`, no suffix) are compared on generated texts only; "
+    "that key, cycle count and category; rowOf_written_plain / rowOf_written_na: the same for rows without suffix and with `-NA`); "
+    "kernel and category names that themselves contain `-` are compared on generated texts only; "
     "fingerprint matching is not modelled (single table assumed)",
     "row order of the CSV (pandas stable sort) is modelled and compared but no theorem is stated about it",
 ]
